@@ -10,7 +10,8 @@ An outcome is a tuple
 with tasks = sorted tuple of (task name, final state) over all instances and
 output = sorted tuple of (key, value) (None when not determinate).
 """
-from mv.gen.workflows import ENGINE_CMDS, clause_of, eval_guard, inbound
+from mv.gen.workflows import (ENGINE_CMDS, ExprFailure, clause_of,
+                              eval_guard, inbound)
 
 RUNNING, SUCCESS, ERROR, WAITING, PAUSED = \
     'RUNNING', 'SUCCESS', 'ERROR', 'WAITING', 'PAUSED'
@@ -72,7 +73,11 @@ class State(object):
 
 def _merge(ctx, pub):
     d = dict(ctx)
-    d.update(pub)
+    for k, v in pub.items():
+        if isinstance(v, (list, tuple)) and v and v[0] == 'inc':
+            d[k] = (d.get(v[1]) or 0) + 1
+        else:
+            d[k] = v
     return frozenset(d.items())
 
 
@@ -120,7 +125,13 @@ class DirectModel(object):
         s = s.clone()
         kind, idx = ev
         inst = s.insts[idx]
-        if kind == 'complete':
+        if kind == 'complete' and \
+                self.prog['tasks'][inst.name].get('bad') == 'input':
+            # the input expression fails when the task starts (A9)
+            if inst.name in self.joins:
+                inst.ctx = self._join_ctx(s, inst)
+            self._force_fail(s, inst)
+        elif kind == 'complete':
             oc = _outcome(self.outcomes, inst.name, inst.occ)
             if inst.name in self.joins:
                 inst.ctx = self._join_ctx(s, inst)
@@ -142,6 +153,11 @@ class DirectModel(object):
         inst.state = state
         pub = t.get('publish') if state == SUCCESS else \
             t.get('publish-on-error')
+        if (t.get('bad') == 'publish' and state == SUCCESS) or \
+                (t.get('bad') == 'publish-on-error' and state == ERROR):
+            # A9: a failing expression fails the task and the workflow
+            self._force_fail(s, inst)
+            return
         out_ctx = _merge(inst.ctx, pub or {})
         if s.wf != RUNNING:
             # finished/paused workflow: the task completes, nothing follows
@@ -152,17 +168,22 @@ class DirectModel(object):
         data = dict(self.input)
         data.update(dict(out_ctx))
         fired = []
-        if state == ERROR:
-            for e in clause_of(self.prog, inst.name, 'on-error'):
+        try:
+            if state == ERROR:
+                for e in clause_of(self.prog, inst.name, 'on-error'):
+                    if eval_guard(e.get('guard'), data, result):
+                        fired.append((e, 'on-error'))
+            if state == SUCCESS:
+                for e in clause_of(self.prog, inst.name, 'on-success'):
+                    if eval_guard(e.get('guard'), data, result):
+                        fired.append((e, 'on-success'))
+            for e in clause_of(self.prog, inst.name, 'on-complete'):
                 if eval_guard(e.get('guard'), data, result):
-                    fired.append((e, 'on-error'))
-        if state == SUCCESS:
-            for e in clause_of(self.prog, inst.name, 'on-success'):
-                if eval_guard(e.get('guard'), data, result):
-                    fired.append((e, 'on-success'))
-        for e in clause_of(self.prog, inst.name, 'on-complete'):
-            if eval_guard(e.get('guard'), data, result):
-                fired.append((e, 'on-complete'))
+                    fired.append((e, 'on-complete'))
+        except ExprFailure:
+            inst.ctx = out_ctx
+            self._force_fail(s, inst)
+            return
         if state == ERROR:
             inst.handled = any(ev == 'on-error' for _, ev in fired)
         inst.routed = tuple(sorted({e['to'] for e, _ in fired
@@ -186,9 +207,21 @@ class DirectModel(object):
         if state_cmd is not None:
             if state_cmd['to'] == 'pause':
                 raise NotImplementedError('pause command')
+            if state_cmd['to'] == 'succeed' and self.prog.get('bad_output'):
+                # evaluating the output fails inside the task's completion
+                self._force_fail(s, inst)
+                return
             s.wf = ERROR if state_cmd['to'] == 'fail' else SUCCESS
             s.wf_info = state_cmd.get('msg')
             s.output = self._output(s, s.wf)
+
+    def _force_fail(self, s, inst):
+        inst.state = ERROR
+        inst.handled = False
+        inst.routed = ()
+        if s.wf == RUNNING:
+            s.wf = ERROR
+            s.output = None
 
     def _create(self, s, name, ctx, parent):
         existing = s.by_name(name)
@@ -203,8 +236,9 @@ class DirectModel(object):
             return
         if existing:
             self.multi_inbound_instances = True
-        s.insts.append(Inst(name, len(existing), RUNNING, ctx,
-                            (parent.name, parent.occ)))
+        ni = Inst(name, len(existing), RUNNING, ctx,
+                  (parent.name, parent.occ) if parent else None)
+        s.insts.append(ni)
 
     # ---- joins
     def _arrival(self, s, jname, src, visited=None):
@@ -277,17 +311,19 @@ class DirectModel(object):
             return
         if all(i.handled for i in s.insts if i.state == ERROR):
             s.wf = SUCCESS
+            if self.prog.get('bad_output'):
+                s.wf = ERROR
         else:
             s.wf = ERROR
         s.output = self._output(s, s.wf)
 
     def _output(self, s, wf_state):
         out = self.prog.get('output')
-        if not out:
-            return ()
         if wf_state != SUCCESS:
             # output-on-error is not generated; on ERROR only 'result'
             return None
+        if not out:
+            return ()
         # final context = merge of the end tasks' outbound contexts
         d = {}
         for i in s.insts:
@@ -375,10 +411,10 @@ class ReverseModel(object):
                     changed = True
         wf = ERROR if any(v == ERROR for v in state.values()) else SUCCESS
         out = self.prog.get('output')
-        if not out:
-            output = ()
-        elif wf != SUCCESS:
+        if wf != SUCCESS:
             output = None
+        elif not out:
+            output = ()
         else:
             d = ctx.get(self.target, {})
             output = tuple(sorted((k, d.get(v, 'none'))
